@@ -160,3 +160,16 @@ Print Assumptions C03_commit.
 Print Assumptions C03_every_payload_in_rpc.
 Print Assumptions C03_force_option_local.
 Print Assumptions C03_force_option_noop.
+
+(* THE TIE BY TRANSLATION: message.serialize as the source has it on this run, called the way
+   Driver.sendRPC calls it (the parameter list of the one and the argument list of the other are
+   both read from the source, so a parameter bound to the wrong driver field is seen), builds the
+   model's serialize: for every version, both flags, every message-id and payload, the raw copy and
+   the framed bytes are the model's. *)
+From Scrapli Require Import DecideLang GeneratedSkel NetconfSrc.
+Theorem C03_serialize_is_source : forall v force xh id payload,
+  exists e_raw e_framed, ser_run v force xh = Some (e_raw, e_framed)
+    /\ denote (rpc_xml id payload) e_raw = ser_raw (serialize v force xh id payload)
+    /\ denote (rpc_xml id payload) e_framed = ser_framed (serialize v force xh id payload).
+Proof. exact serialize_is_source. Qed.
+Print Assumptions C03_serialize_is_source.
